@@ -178,6 +178,12 @@ def analyse(steps, trailing_notes=()):
     last_update_idx = {}
     drain_idx = None
     for st in steps:
+        if st.op == "ifroom":
+            # conditional application call: skipped while the channel holds 255 unacknowledged reliable bunches, otherwise the inner op
+            if "ret skip" in st.events or len(st.args) < 3:
+                st.op, st.args = "noop", []
+            else:
+                st.op, st.args = st.args[2], st.args[3:]
         if st.op == "ifconn":
             # conditional application call: skipped on an endpoint that is not connected (or closed), otherwise the inner op
             if "ret skip" in st.events or len(st.args) < 2:
